@@ -82,6 +82,11 @@ func genIndexScan(t *rapid.T) IndexScanCase {
 			if len(v) == 0 {
 				v = []byte("a") // the storage engine has no empty key (catalogued as D7)
 			}
+			if probe && rapid.IntRange(0, 5).Draw(t, fmt.Sprintf("empty%d", i)) == 0 {
+				// "" cannot be stored, but it is a string like any other as the bound of a query: below
+				// every stored value
+				v = []byte{}
+			}
 			if probe {
 				c.Probes.Strings = append(c.Probes.Strings, v)
 			} else {
